@@ -651,6 +651,26 @@ impl Pos {
         s
     }
     /// Standard FEN; the en-passant square is recorded after every double push.
+    /// Clock values a standard writer may emit for this position, chosen by `h`: half-move clocks up
+    /// to 300 (nobody has to claim the draw), full-move numbers mostly below 300, sometimes around
+    /// 256 and up to 9999 (long games).
+    pub fn clocks_for(h: u64) -> (u32, u32) {
+        let half = match h % 8 {
+            0 => 0,
+            1 => 99 + (h >> 3) as u32 % 3,
+            2 => 100 + (h >> 3) as u32 % 200,
+            _ => (h >> 3) as u32 % 100,
+        };
+        let x = (h >> 20) as u32;
+        let full = match (h >> 12) % 8 {
+            0 | 1 | 2 | 3 => 1 + x % 300,
+            4 => 1,
+            5 => 250 + x % 20,
+            6 => 1 + x % 9999,
+            _ => [127, 128, 255, 256, 257, 999, 1000, 9999][(x % 8) as usize],
+        };
+        (half, full)
+    }
     pub fn fen_with_clocks(&self, half: u32, full: u32) -> String {
         format!(
             "{} {} {} {} {} {}",
